@@ -451,8 +451,10 @@ package rag
 
 // ---- C02: the sentence splitter stays in bounds for every text (the look-behind for "Mr."-style abbreviations must
 // not reach before the start of the current sentence) ----
+// (C13) the sentence splitter walks the text as CHARACTERS (the rune slice `runes`) and re-encodes each with WriteRune:
+// walking bytes would re-encode every non-ASCII byte
 //@ func splitIntoSentences results (res)
-//@   property C02
+//@   property C02, C13
 //@   loop 0:
 //@     invariant 0 <= i && i <= len(runes)
 //@     decreases len(runes) - i
